@@ -60,7 +60,8 @@ where
 	let current_height = wallet.w2n_client().get_chain_tip()?.0;
 	let mut slate = Slate::blank(num_participants, is_invoice);
 	if let Some(b) = ttl_blocks {
-		slate.ttl_cutoff_height = current_height + b;
+		// (a time to live beyond the end of the chain: never expires)
+		slate.ttl_cutoff_height = current_height.saturating_add(b);
 	}
 	if use_test_rng {
 		{
